@@ -640,6 +640,8 @@ def r05_13(ctx) -> None:
 
 
 def run(ctx) -> None:
+    from .common import forwarding_discipline
+    ctx.guard(forwarding_discipline, "R05.14", ['registry', 'algorithms', 'name'], 44)  # arguments are handed on under their own name (generic routing rule, rules/common.py)
     ctx.guard(r05_13)
     ctx.guard(r05_12)
     ctx.guard(r05_10)
